@@ -34,12 +34,29 @@ func genProxyCuts(t *rapid.T, label string) []int {
 	}
 }
 
+func coarsen(cuts []int) []int {
+	out := append([]int(nil), cuts...)
+	for i := range out {
+		if out[i] < 512 {
+			out[i] = 512 + out[i]
+		}
+	}
+	return out
+}
+
 func genC02(t *rapid.T) E2ECase {
 	c := genE2ECase(t, "C02", false)
 	c.Transport = "pipe"
 	c.Proxy = true
 	c.CutsC2S = genProxyCuts(t, "c2s")
 	c.CutsS2C = genProxyCuts(t, "s2c")
+	big := 0
+	for _, st := range c.Steps {
+		big += len(st.Params)
+	}
+	if big > 300000 { // MiB documents one byte at a time would only test the harness's patience
+		c.CutsC2S, c.CutsS2C = coarsen(c.CutsC2S), coarsen(c.CutsS2C)
+	}
 	c.Coalesce = rapid.IntRange(0, 2).Draw(t, "coalesce") != 0
 	return c
 }
@@ -131,6 +148,9 @@ func genC02Proto(t *rapid.T) ProtoCase {
 		cc.Cuts = genProxyCuts(t, "raw")
 	default:
 		cc.Cuts = genCuts(t, stream)
+	}
+	if len(stream) > 300000 {
+		cc.Cuts = coarsen(cc.Cuts)
 	}
 	c.Conns = []ConnCase{cc}
 	return c
